@@ -633,6 +633,12 @@ def light_tail_cases(ctx, variants):
     nrm = math.sqrt(sum(abs(z) ** 2 for z in fixed_amps))
     fixed_amps = [complex(z) / nrm for z in fixed_amps]
     fixed = [(["000", "001", "010", "101", "111"], fixed_amps), (["0000", "1000", "0011", "0110", "1011"], fixed_amps)]
+    # probe of the known A.2 precision finding in the dense hand-off (printed as KNOWN-FINDING on every run)
+    if "pivot" in names:
+        oracle_case(ctx, "pivot", {"aux": False}, ["111", "011", "101", "010", "110"],
+                    [complex(-0.9811270752758504, 0.19334498101681266), complex(0.0014714994735748213, 0.0009987776247828508),
+                     complex(-0.00028438070518910507, -0.0016133040649595404), complex(-0.00026981911044454324, -0.0011689240981434645),
+                     complex(-0.0003078969447938304, 0.0)], "tail-probe")
     for keys, amps in fixed:
         for alg, opts in allv:
             ks = list(keys)            # already Hamming-sorted: the heavy head is loaded first by CVO-QRAM
